@@ -1,2 +1,42 @@
 //! verification hook (cfg pendulum_project_ntpd_rs_verif only)
 pub use crate::time_types::verif_hook as time;
+
+// --- packets / crypto / cookies (server and source worlds)
+pub use crate::packet::{AesSivCmac256, AesSivCmac512};
+use crate::keyset::DecodedServerCookie;
+use crate::nts::AeadAlgorithm;
+use crate::packet::Cipher;
+
+/// build a decoded server cookie (session keys) from raw key bytes (32+32 or 64+64)
+pub fn make_cookie(s2c: &[u8], c2s: &[u8]) -> Option<DecodedServerCookie> {
+    match (s2c.len(), c2s.len()) {
+        (32, 32) => Some(DecodedServerCookie {
+            algorithm: AeadAlgorithm::AeadAesSivCmac256,
+            s2c: Box::new(AesSivCmac256::try_from(s2c).ok()?),
+            c2s: Box::new(AesSivCmac256::try_from(c2s).ok()?),
+        }),
+        (64, 64) => Some(DecodedServerCookie {
+            algorithm: AeadAlgorithm::AeadAesSivCmac512,
+            s2c: Box::new(AesSivCmac512::try_from(s2c).ok()?),
+            c2s: Box::new(AesSivCmac512::try_from(c2s).ok()?),
+        }),
+        _ => None,
+    }
+}
+/// (IANA algorithm id, s2c key bytes, c2s key bytes)
+pub fn cookie_parts(c: &DecodedServerCookie) -> (u16, Vec<u8>, Vec<u8>) {
+    (u16::from(c.algorithm), c.s2c.key_bytes().to_vec(), c.c2s.key_bytes().to_vec())
+}
+pub fn make_cipher(key: &[u8]) -> Option<Box<dyn Cipher>> {
+    match key.len() {
+        32 => Some(Box::new(AesSivCmac256::try_from(key).ok()?)),
+        64 => Some(Box::new(AesSivCmac512::try_from(key).ok()?)),
+        _ => None,
+    }
+}
+pub fn refid_from_u32(v: u32) -> crate::ReferenceId {
+    crate::ReferenceId::from_int(v)
+}
+pub fn refid_to_u32(r: crate::ReferenceId) -> u32 {
+    u32::from_be_bytes(r.to_bytes())
+}
